@@ -81,7 +81,7 @@ package output
 //@   forall j int :: 0 <= j && j < len(d.Args) ==> namesIn(d.Args[j].DependsOnServices, set)
 
 //@ func validateParamsExistsInParams
-//@   property C06
+//@   property C06 C16
 //@   requires existing != nil
 //@   ensures [nonnil_elems] forall j int :: 0 <= j && j < len(result) ==> result[j] != nil
 //@   ensures [ok_if_empty @a] len(result) == 0 ==> (forall j int :: 0 <= j && j < len(params) ==> namesIn(params[j].DependsOn, dom(existing)))
@@ -98,7 +98,7 @@ package output
 //@                    && (forall m int :: 0 <= m && m < $i ==> p.DependsOn[m] in dom(existing)) ==> len(errs) == 0
 
 //@ func validateParamsExistsInServices
-//@   property C06
+//@   property C06 C16
 //@   requires existing != nil
 //@   ensures [nonnil_elems] forall j int :: 0 <= j && j < len(result) ==> result[j] != nil
 //@   ensures [ok_if_empty @a] len(result) == 0 ==> (forall j int :: 0 <= j && j < len(services) ==> svcParamsIn(services[j], dom(existing)))
@@ -139,7 +139,7 @@ package output
 //@     invariant [set] dom(existing) == paramNames(o, $i)
 
 //@ func validateServicesExistsInServices
-//@   property C06
+//@   property C06 C16
 //@   requires existing != nil
 //@   ensures [nonnil_elems] forall j int :: 0 <= j && j < len(result) ==> result[j] != nil
 //@   ensures [ok_if_empty @a] len(result) == 0 ==> (forall j int :: 0 <= j && j < len(services) ==> svcServicesIn(services[j], dom(existing)))
@@ -164,7 +164,7 @@ package output
 //@                    && (forall m int :: 0 <= m && m < $i ==> a.DependsOnServices[m] in dom(existing)) ==> len(errs) == 0
 
 //@ func validateServicesExistsInDecorators
-//@   property C06
+//@   property C06 C16
 //@   requires existing != nil
 //@   ensures [nonnil_elems] forall j int :: 0 <= j && j < len(result) ==> result[j] != nil
 //@   ensures [ok_if_empty @a] len(result) == 0 ==> (forall j int :: 0 <= j && j < len(decorators) ==> decServicesIn(decorators[j], dom(existing)))
@@ -202,7 +202,7 @@ package output
 //@     invariant [set] dom(existing) == serviceNames(o, $i)
 
 //@ func validateParamsExistsInDecorators
-//@   property C06
+//@   property C06 C16
 //@   requires existing != nil
 //@   ensures [nonnil_elems] forall j int :: 0 <= j && j < len(result) ==> result[j] != nil
 //@   ensures [ok_if_empty @a] len(result) == 0 ==> (forall j int :: 0 <= j && j < len(decorators) ==> decParamsIn(decorators[j], dom(existing)))
